@@ -3,18 +3,34 @@
 //! Only compiled with `--cfg texcraft_verif_sched`; it has no dependencies.
 //! Under that cfg the name `sync` in the parent module resolves to this module instead of
 //! [std::sync], so that [Tag::new](super::Tag::new) and [StaticTag::get](super::StaticTag::get)
-//! take their locks through an externally installed, controlled scheduler
+//! synchronise through an externally installed, controlled scheduler
 //! (a model checker that enumerates thread schedules).
-//! Every lock acquisition and every lock release is a scheduling point.
 //!
-//! Without an installed scheduler the locks panic, so nothing but a schedule-exploration
-//! harness should ever be built with this cfg.
+//! The module mirrors the part of [std::sync] that code of this kind plausibly uses, so that a
+//! change of the parent module that stays inside that part still compiles under the cfg:
+//! [Mutex], [RwLock], [OnceLock], [Once], [LazyLock], the integer and boolean types of
+//! [atomic], and re-exports of the types that need no scheduling ([Arc], [Weak], the lock
+//! result types).
+//!
+//! Scheduling points: every lock acquisition, every lock release, and every single atomic
+//! operation (which is bracketed by an acquisition and a release of a lock private to that
+//! atomic, so it is one indivisible step and the scheduler may switch threads before and
+//! after it). A [RwLock] is exclusive for readers too, which explores fewer schedules than a
+//! real reader-writer lock admits but never an impossible one.
+//!
+//! Without an installed scheduler every primitive panics, so nothing but a
+//! schedule-exploration harness should ever be built with this cfg.
 use std::cell::UnsafeCell;
 
-/// The controlled scheduler. `lock` identifies a lock (the address of the [Mutex]).
+pub use std::sync::{Arc, LockResult, PoisonError, TryLockError, TryLockResult, Weak};
+
+/// The controlled scheduler. `lock` identifies a lock (the address of the primitive).
 pub trait Scheduler: Sync {
     /// Block until the lock identified by `lock` is free, then take it. A scheduling point.
     fn acquire(&self, lock: usize);
+    /// Take the lock if it is free and return whether it was taken. Never blocks.
+    /// A scheduling point.
+    fn try_acquire(&self, lock: usize) -> bool;
     /// Release the lock. A scheduling point.
     fn release(&self, lock: usize);
 }
@@ -30,7 +46,11 @@ fn scheduler() -> &'static dyn Scheduler {
     *SCHEDULER.get().expect("no scheduler installed")
 }
 
-/// A mutex with the API subset of [std::sync::Mutex] that the parent module uses.
+fn id_of<T: ?Sized>(t: &T) -> usize {
+    t as *const T as *const () as usize
+}
+
+/// A mutex with the API of [std::sync::Mutex] (it is never poisoned).
 /// Mutual exclusion is provided by the installed [Scheduler].
 pub struct Mutex<T> {
     data: UnsafeCell<T>,
@@ -53,10 +73,45 @@ impl<T> Mutex<T> {
     }
 
     /// Acquire the lock through the installed scheduler.
-    #[allow(clippy::result_unit_err)]
-    pub fn lock(&self) -> Result<MutexGuard<'_, T>, ()> {
-        scheduler().acquire(self as *const _ as *const () as usize);
+    pub fn lock(&self) -> LockResult<MutexGuard<'_, T>> {
+        scheduler().acquire(id_of(self));
         Ok(MutexGuard { m: self })
+    }
+
+    /// Acquire the lock if it is free.
+    pub fn try_lock(&self) -> TryLockResult<MutexGuard<'_, T>> {
+        if scheduler().try_acquire(id_of(self)) {
+            Ok(MutexGuard { m: self })
+        } else {
+            Err(TryLockError::WouldBlock)
+        }
+    }
+
+    /// Access the value through an exclusive reference; no locking is needed.
+    pub fn get_mut(&mut self) -> LockResult<&mut T> {
+        Ok(self.data.get_mut())
+    }
+
+    /// Consume the mutex and return the value.
+    pub fn into_inner(self) -> LockResult<T> {
+        Ok(self.data.into_inner())
+    }
+
+    /// Always false: this mutex is never poisoned.
+    pub fn is_poisoned(&self) -> bool {
+        false
+    }
+}
+
+impl<T: Default> Default for Mutex<T> {
+    fn default() -> Self {
+        Mutex::new(T::default())
+    }
+}
+
+impl<T> From<T> for Mutex<T> {
+    fn from(t: T) -> Self {
+        Mutex::new(t)
     }
 }
 
@@ -75,11 +130,110 @@ impl<T> std::ops::DerefMut for MutexGuard<'_, T> {
 
 impl<T> Drop for MutexGuard<'_, T> {
     fn drop(&mut self) {
-        scheduler().release(self.m as *const _ as *const () as usize);
+        scheduler().release(id_of(self.m));
     }
 }
 
-/// Same contract as [std::sync::OnceLock::get_or_init]: one initialiser runs, the others wait for it.
+/// A reader-writer lock with the API of [std::sync::RwLock].
+/// Readers exclude each other as well (see the module documentation).
+pub struct RwLock<T> {
+    inner: Mutex<T>,
+}
+
+/// Guard returned by [RwLock::read].
+pub struct RwLockReadGuard<'a, T> {
+    g: MutexGuard<'a, T>,
+}
+
+/// Guard returned by [RwLock::write].
+pub struct RwLockWriteGuard<'a, T> {
+    g: MutexGuard<'a, T>,
+}
+
+impl<T> RwLock<T> {
+    /// Create a new lock.
+    pub const fn new(t: T) -> Self {
+        Self {
+            inner: Mutex::new(t),
+        }
+    }
+
+    /// Acquire the lock for reading.
+    pub fn read(&self) -> LockResult<RwLockReadGuard<'_, T>> {
+        scheduler().acquire(id_of(&self.inner));
+        Ok(RwLockReadGuard {
+            g: MutexGuard { m: &self.inner },
+        })
+    }
+
+    /// Acquire the lock for writing.
+    pub fn write(&self) -> LockResult<RwLockWriteGuard<'_, T>> {
+        scheduler().acquire(id_of(&self.inner));
+        Ok(RwLockWriteGuard {
+            g: MutexGuard { m: &self.inner },
+        })
+    }
+
+    /// Acquire the lock for reading if it is free.
+    pub fn try_read(&self) -> TryLockResult<RwLockReadGuard<'_, T>> {
+        if scheduler().try_acquire(id_of(&self.inner)) {
+            Ok(RwLockReadGuard {
+                g: MutexGuard { m: &self.inner },
+            })
+        } else {
+            Err(TryLockError::WouldBlock)
+        }
+    }
+
+    /// Acquire the lock for writing if it is free.
+    pub fn try_write(&self) -> TryLockResult<RwLockWriteGuard<'_, T>> {
+        if scheduler().try_acquire(id_of(&self.inner)) {
+            Ok(RwLockWriteGuard {
+                g: MutexGuard { m: &self.inner },
+            })
+        } else {
+            Err(TryLockError::WouldBlock)
+        }
+    }
+
+    /// Access the value through an exclusive reference; no locking is needed.
+    pub fn get_mut(&mut self) -> LockResult<&mut T> {
+        self.inner.get_mut()
+    }
+
+    /// Consume the lock and return the value.
+    pub fn into_inner(self) -> LockResult<T> {
+        self.inner.into_inner()
+    }
+}
+
+impl<T: Default> Default for RwLock<T> {
+    fn default() -> Self {
+        RwLock::new(T::default())
+    }
+}
+
+impl<T> std::ops::Deref for RwLockReadGuard<'_, T> {
+    type Target = T;
+    fn deref(&self) -> &T {
+        &self.g
+    }
+}
+
+impl<T> std::ops::Deref for RwLockWriteGuard<'_, T> {
+    type Target = T;
+    fn deref(&self) -> &T {
+        &self.g
+    }
+}
+
+impl<T> std::ops::DerefMut for RwLockWriteGuard<'_, T> {
+    fn deref_mut(&mut self) -> &mut T {
+        &mut self.g
+    }
+}
+
+/// Same contract as [std::sync::OnceLock]: one initialiser runs, the others wait for it.
 pub struct OnceLock<T> {
     cell: Mutex<Option<T>>,
 }
@@ -90,6 +244,27 @@ impl<T> OnceLock<T> {
     pub const fn new() -> Self {
         Self {
             cell: Mutex::new(None),
+        }
+    }
+
+    /// Get the value if the cell has been initialised.
+    pub fn get(&self) -> Option<&T> {
+        let g = self.cell.lock().unwrap();
+        let p: Option<*const T> = g.as_ref().map(|t| t as *const T);
+        drop(g);
+        // See get_or_init for why the reference stays valid.
+        p.map(|p| unsafe { &*p })
+    }
+
+    /// Set the value if the cell is empty; otherwise hand the rejected value back.
+    pub fn set(&self, t: T) -> Result<(), T> {
+        let mut g = self.cell.lock().unwrap();
+        match *g {
+            Some(_) => Err(t),
+            None => {
+                *g = Some(t);
+                Ok(())
+            }
         }
     }
 
@@ -104,5 +279,263 @@ impl<T> OnceLock<T> {
         // The value is never moved or dropped once set (there is no `take`), so the reference
         // stays valid for as long as `self` does.
         unsafe { &*p }
+    }
+}
+
+/// Same contract as [std::sync::Once]: one closure runs, concurrent callers wait for it.
+pub struct Once {
+    done: Mutex<bool>,
+}
+
+impl Once {
+    /// Create a new `Once`.
+    #[allow(clippy::new_without_default)]
+    pub const fn new() -> Self {
+        Self {
+            done: Mutex::new(false),
+        }
+    }
+
+    /// Run `f` if no call has completed yet.
+    pub fn call_once<F: FnOnce()>(&self, f: F) {
+        let mut g = self.done.lock().unwrap();
+        if !*g {
+            f();
+            *g = true;
+        }
+    }
+
+    /// Whether some call has completed.
+    pub fn is_completed(&self) -> bool {
+        *self.done.lock().unwrap()
+    }
+}
+
+/// Same contract as [std::sync::LazyLock].
+pub struct LazyLock<T, F = fn() -> T> {
+    cell: OnceLock<T>,
+    init: UnsafeCell<Option<F>>,
+}
+
+unsafe impl<T: Sync + Send, F: Send> Sync for LazyLock<T, F> {}
+
+impl<T, F: FnOnce() -> T> LazyLock<T, F> {
+    /// Create a new lazy value with the given initialiser.
+    pub const fn new(f: F) -> Self {
+        Self {
+            cell: OnceLock::new(),
+            init: UnsafeCell::new(Some(f)),
+        }
+    }
+
+    /// Force the evaluation and return a reference to the value.
+    pub fn force(this: &Self) -> &T {
+        // The initialiser is taken inside get_or_init, i.e. while the cell's lock is held.
+        this.cell.get_or_init(|| {
+            (unsafe { &mut *this.init.get() }
+                .take()
+                .expect("LazyLock poisoned"))()
+        })
+    }
+}
+
+impl<T, F: FnOnce() -> T> std::ops::Deref for LazyLock<T, F> {
+    type Target = T;
+    fn deref(&self) -> &T {
+        LazyLock::force(self)
+    }
+}
+
+/// Atomic types with the API of [std::sync::atomic].
+///
+/// Every operation is one indivisible step bracketed by scheduling points; the memory
+/// orderings are accepted and ignored (the controlled scheduler explores sequentially
+/// consistent interleavings).
+pub mod atomic {
+    use super::{id_of, scheduler};
+    use std::cell::UnsafeCell;
+
+    pub use std::sync::atomic::Ordering;
+
+    macro_rules! atomic_common {
+        ($name:ident, $t:ty) => {
+            unsafe impl Sync for $name {}
+
+            impl $name {
+                /// Create a new atomic.
+                pub const fn new(v: $t) -> Self {
+                    Self {
+                        v: UnsafeCell::new(v),
+                    }
+                }
+
+                fn step<R>(&self, f: impl FnOnce(&mut $t) -> R) -> R {
+                    let id = id_of(self);
+                    scheduler().acquire(id);
+                    let r = f(unsafe { &mut *self.v.get() });
+                    scheduler().release(id);
+                    r
+                }
+
+                /// Load the value.
+                pub fn load(&self, _order: Ordering) -> $t {
+                    self.step(|v| *v)
+                }
+
+                /// Store a value.
+                pub fn store(&self, val: $t, _order: Ordering) {
+                    self.step(|v| *v = val)
+                }
+
+                /// Store a value and return the previous one.
+                pub fn swap(&self, val: $t, _order: Ordering) -> $t {
+                    self.step(|v| std::mem::replace(v, val))
+                }
+
+                /// Store `new` if the value is `current`.
+                pub fn compare_exchange(
+                    &self,
+                    current: $t,
+                    new: $t,
+                    _success: Ordering,
+                    _failure: Ordering,
+                ) -> Result<$t, $t> {
+                    self.step(|v| {
+                        if *v == current {
+                            *v = new;
+                            Ok(current)
+                        } else {
+                            Err(*v)
+                        }
+                    })
+                }
+
+                /// Like [Self::compare_exchange]; it never fails spuriously.
+                pub fn compare_exchange_weak(
+                    &self,
+                    current: $t,
+                    new: $t,
+                    success: Ordering,
+                    failure: Ordering,
+                ) -> Result<$t, $t> {
+                    self.compare_exchange(current, new, success, failure)
+                }
+
+                /// A compare-exchange loop, as in std: several steps, not one.
+                pub fn fetch_update<F: FnMut($t) -> Option<$t>>(
+                    &self,
+                    set_order: Ordering,
+                    fetch_order: Ordering,
+                    mut f: F,
+                ) -> Result<$t, $t> {
+                    let mut prev = self.load(fetch_order);
+                    while let Some(next) = f(prev) {
+                        match self.compare_exchange_weak(prev, next, set_order, fetch_order) {
+                            Ok(x) => return Ok(x),
+                            Err(p) => prev = p,
+                        }
+                    }
+                    Err(prev)
+                }
+
+                /// Access the value through an exclusive reference.
+                pub fn get_mut(&mut self) -> &mut $t {
+                    self.v.get_mut()
+                }
+
+                /// Consume the atomic and return the value.
+                pub fn into_inner(self) -> $t {
+                    self.v.into_inner()
+                }
+            }
+
+            impl Default for $name {
+                fn default() -> Self {
+                    Self::new(Default::default())
+                }
+            }
+
+            impl From<$t> for $name {
+                fn from(v: $t) -> Self {
+                    Self::new(v)
+                }
+            }
+        };
+    }
+
+    macro_rules! atomic_int {
+        ($name:ident, $t:ty) => {
+            /// An integer with the API of the std atomic of the same name.
+            pub struct $name {
+                v: UnsafeCell<$t>,
+            }
+
+            atomic_common!($name, $t);
+
+            impl $name {
+                /// Add (wrapping) and return the previous value.
+                pub fn fetch_add(&self, val: $t, _order: Ordering) -> $t {
+                    self.step(|v| std::mem::replace(v, v.wrapping_add(val)))
+                }
+
+                /// Subtract (wrapping) and return the previous value.
+                pub fn fetch_sub(&self, val: $t, _order: Ordering) -> $t {
+                    self.step(|v| std::mem::replace(v, v.wrapping_sub(val)))
+                }
+
+                /// Store the maximum and return the previous value.
+                pub fn fetch_max(&self, val: $t, _order: Ordering) -> $t {
+                    self.step(|v| std::mem::replace(v, (*v).max(val)))
+                }
+
+                /// Store the minimum and return the previous value.
+                pub fn fetch_min(&self, val: $t, _order: Ordering) -> $t {
+                    self.step(|v| std::mem::replace(v, (*v).min(val)))
+                }
+
+                /// Bitwise and; returns the previous value.
+                pub fn fetch_and(&self, val: $t, _order: Ordering) -> $t {
+                    self.step(|v| std::mem::replace(v, *v & val))
+                }
+
+                /// Bitwise or; returns the previous value.
+                pub fn fetch_or(&self, val: $t, _order: Ordering) -> $t {
+                    self.step(|v| std::mem::replace(v, *v | val))
+                }
+
+                /// Bitwise xor; returns the previous value.
+                pub fn fetch_xor(&self, val: $t, _order: Ordering) -> $t {
+                    self.step(|v| std::mem::replace(v, *v ^ val))
+                }
+            }
+        };
+    }
+
+    atomic_int!(AtomicU32, u32);
+    atomic_int!(AtomicU64, u64);
+    atomic_int!(AtomicUsize, usize);
+
+    /// A boolean with the API of [std::sync::atomic::AtomicBool].
+    pub struct AtomicBool {
+        v: UnsafeCell<bool>,
+    }
+
+    atomic_common!(AtomicBool, bool);
+
+    impl AtomicBool {
+        /// Logical and; returns the previous value.
+        pub fn fetch_and(&self, val: bool, _order: Ordering) -> bool {
+            self.step(|v| std::mem::replace(v, *v & val))
+        }
+
+        /// Logical or; returns the previous value.
+        pub fn fetch_or(&self, val: bool, _order: Ordering) -> bool {
+            self.step(|v| std::mem::replace(v, *v | val))
+        }
+
+        /// Logical xor; returns the previous value.
+        pub fn fetch_xor(&self, val: bool, _order: Ordering) -> bool {
+            self.step(|v| std::mem::replace(v, *v ^ val))
+        }
     }
 }
